@@ -1,14 +1,191 @@
-//! C06 — stub, to be implemented.
+//! C06 — applying the computed difference always reaches the target configuration.
+//!
+//! modelsim tier on `ConfigState::diff`. Pairs (A, B) of reachable configurations: A = result of history `a`;
+//! B = result of history `b` applied on top of A ("same history" pairs when `b` is the continuation of the
+//! history, "near" pairs when `b` is one targeted mutation: a listener's activation or one field, a frontend's
+//! tags, a backend id at a second address, the certificate set …) or on an empty instance ("unrelated").
+//! Both directions are checked: diff(A,B) applied to A must give B, diff(B,A) applied to B must give A.
+//!
+//! Oracle (metamorphic): every request of the difference is accepted in order by an instance holding the
+//! source; the result equals the target (map-by-map, `request_counts` excluded, empty buckets normalised,
+//! order inside buckets ignored); the difference of a configuration with itself is empty. The difference is
+//! computed on one thread under one hash seed and applied on another thread, under another hash seed, to a
+//! source rebuilt there from the history (which must equal the first build).
 #![allow(dead_code)]
-use serde_json::Value;
+use std::collections::{BTreeMap, BTreeSet};
+
+use serde_json::{json, Value};
+use sozu_command_lib::proto::command::Request;
+use sozu_command_lib::state::ConfigState;
+
+use super::c07::err_name;
+use super::cfggen::{self, delta_sig_fields, pair_features, state_delta, GenOpts, Mem};
 use crate::framework::*;
+use crate::prng::{Prng, TraceHash};
+use crate::world::{SchedCfg, World};
 
 pub struct C06;
 
+pub fn generate(seed: u64, tier: Tier) -> Value {
+    let mut rng = Prng::derive(seed, "c06/plan");
+    let mut o = GenOpts::swarm(&mut rng);
+    o.symbolic_certs = true;
+    // diff needs populated states: fewer wholly invalid commands than C07
+    o.invalid_pm = o.invalid_pm.min(80);
+    o.partial_pm = o.partial_pm.min(100);
+    let max = match tier { Tier::Quick => 40, Tier::Thorough => 120 };
+    let len = *rng.pick(&[4usize, 8, 16, 30, max]);
+    let (a, mut mem) = cfggen::gen_history_mem(&mut rng, len, &o, Mem::default());
+    let (fam, base, b): (&str, &str, Vec<Request>) = match rng.below(8) {
+        0 | 1 => { let n = 1 + rng.below(len as u64) as usize; ("same_history", "a", cfggen::gen_history_mem(&mut rng, n, &o, mem).0) }
+        2 => { let n = 1 + rng.below(len as u64) as usize; ("unrelated", "empty", cfggen::gen_history(&mut rng, n, &o)) }
+        3 => { let mut b = Vec::new(); for _ in 0..2 + rng.below(3) { b.extend(cfggen::gen_near_mutation(&mut rng, &o, &mut mem)); } ("near_chain", "a", b) }
+        _ => ("near", "a", cfggen::gen_near_mutation(&mut rng, &o, &mut mem)),
+    };
+    json!({"seed": seed, "family": fam, "seed_a": rng.next_u64(), "seed_b": rng.next_u64(), "a": cfggen::ops_to_value(&a), "b_base": base, "b": cfggen::ops_to_value(&b)})
+}
+
+fn build(a: &[Request], b: &[Request], on_a: bool) -> (ConfigState, ConfigState, u64) {
+    let mut sa = ConfigState::new();
+    let mut acc = 0u64;
+    for r in a { if sa.dispatch(r).is_ok() { acc += 1; } }
+    let mut sb = if on_a { sa.clone() } else { ConfigState::new() };
+    for r in b { if sb.dispatch(r).is_ok() { acc += 1; } }
+    (sa, sb, acc)
+}
+
+struct Computed { a: ConfigState, b: ConfigState, ab: Vec<Request>, ba: Vec<Request>, aa: Vec<Request>, bb: Vec<Request>, accepted: u64 }
+
+struct Out { violations: Vec<Violation>, hash: u64, probes: BTreeMap<String, u64>, nontrivial: bool }
+
+fn features_for(map: &str, feats: &BTreeSet<&'static str>) -> String {
+    let rel: Vec<&str> = feats.iter().copied().filter(|f| match map {
+        "backends" => *f == "dup_backend_id",
+        "tcp_fronts" => *f == "tcp_fronts_sharing_address",
+        "udp_fronts" => *f == "udp_fronts_sharing_address",
+        "certificates:changed" => *f == "same_fingerprint_other_attributes" || *f == "certificate_without_names",
+        _ => false,
+    }).collect();
+    if rel.is_empty() { String::new() } else { format!("+{}", rel.join("+")) }
+}
+
+fn apply_and_compare(dir: &str, source: &ConfigState, target: &ConfigState, diff: &[Request], feats: &BTreeSet<&'static str>, v: &mut Vec<Violation>, th: &mut TraceHash, probes: &mut BTreeMap<String, u64>) {
+    let mut s = source.clone();
+    for (i, r) in diff.iter().enumerate() {
+        let verb = cfggen::verb_name(r);
+        *probes.entry(format!("diff_request/{verb}")).or_insert(0) += 1;
+        match s.dispatch(r) {
+            Ok(()) => th.mix(1),
+            Err(e) => {
+                th.mix(2);
+                let map = match verb { "RemoveBackend" | "AddBackend" => "backends", "RemoveTcpFrontend" | "AddTcpFrontend" => "tcp_fronts", "RemoveUdpFrontend" | "AddUdpFrontend" => "udp_fronts", _ => "" };
+                v.push(Violation::new("diff_rejected", format!("{verb}|{}{}", err_name(&e), features_for(map, feats)), format!("{dir}: request #{i} of {} in the difference ({verb}) was rejected by the source configuration: {e}", diff.len())));
+            }
+        }
+    }
+    let d = state_delta(target, &s, false);
+    th.mix(d.len() as u64);
+    let mut seen = BTreeSet::new();
+    for x in &d {
+        // from the target's point of view: `removed` = the target has it, the result does not
+        let fmap = if x.map == "certificates" { if x.kind == cfggen::DeltaKind::Changed { "certificates:changed" } else { "" } } else { x.map };
+        let key = format!("{}{}", x.sig().replace(":removed", ":missing").replace(":added", ":extra"), features_for(fmap, feats));
+        if seen.insert(key.clone()) {
+            v.push(Violation::new("diff_not_converging", key, format!("{dir}: after applying the {} requests of the difference the configuration is not the target: {} ({} differences: {})", diff.len(), x.describe(), d.len(), delta_sig_fields(&d))));
+        }
+    }
+}
+
+fn run(a: Vec<Request>, b: Vec<Request>, on_a: bool, seed_a: u64, seed_b: u64) -> Out {
+    let (a1, b1) = (a.clone(), b.clone());
+    let c = crate::netsim::on_fresh_thread(move || {
+        let mut w = World::new(seed_a, SchedCfg::default());
+        World::install(&mut w);
+        let (sa, sb, accepted) = build(&a1, &b1, on_a);
+        let c = Computed { ab: sa.diff(&sb), ba: sb.diff(&sa), aa: sa.diff(&sa), bb: sb.diff(&sb), a: sa, b: sb, accepted };
+        World::uninstall();
+        c
+    });
+    crate::netsim::on_fresh_thread(move || {
+        let mut w = World::new(seed_b, SchedCfg::default());
+        World::install(&mut w);
+        let mut th = TraceHash::new();
+        let mut v: Vec<Violation> = Vec::new();
+        let mut probes: BTreeMap<String, u64> = BTreeMap::new();
+        // sources rebuilt under this thread's hash seed
+        let (a2, b2, _) = build(&a, &b, on_a);
+        for (name, x, y) in [("A", &c.a, &a2), ("B", &c.b, &b2)] {
+            let d = state_delta(x, y, true);
+            if !d.is_empty() { v.push(Violation::new("state_depends_on_hash_seed", delta_sig_fields(&d), format!("configuration {name} built from the same history under two hash seeds differs: {}", d.iter().take(3).map(|x| x.describe()).collect::<Vec<_>>().join("; ")))); }
+        }
+        // evidence that the two threads really hash differently: bucket iteration order of equal maps
+        if c.b.tcp_fronts.len() >= 3 {
+            *probes.entry("hashmaps_with_3plus_buckets".into()).or_insert(0) += 1;
+            if c.b.tcp_fronts.keys().ne(b2.tcp_fronts.keys()) { *probes.entry("hashmap_iteration_order_differs_between_seeds".into()).or_insert(0) += 1; }
+        }
+        cfggen::state_hash(&c.a, &mut th);
+        cfggen::state_hash(&c.b, &mut th);
+        th.mix(c.accepted);
+        let feats = pair_features(&c.a, &c.b);
+        for f in &feats { *probes.entry(format!("pair_feature/{f}")).or_insert(0) += 1; }
+        let differ = !state_delta(&c.a, &c.b, false).is_empty();
+        probes.insert("pairs_differing".into(), differ as u64);
+        probes.insert("diff_requests".into(), (c.ab.len() + c.ba.len()) as u64);
+        th.mix(c.ab.len() as u64); th.mix(c.ba.len() as u64);
+        apply_and_compare("A->B", &a2, &c.b, &c.ab, &feats, &mut v, &mut th, &mut probes);
+        apply_and_compare("B->A", &b2, &c.a, &c.ba, &feats, &mut v, &mut th, &mut probes);
+        for (name, d) in [("A", &c.aa), ("B", &c.bb)] {
+            if let Some(r) = d.first() { v.push(Violation::new("diff_of_equal_not_empty", cfggen::verb_name(r).to_string(), format!("diff({name},{name}) has {} requests, first {}", d.len(), cfggen::verb_name(r)))); }
+        }
+        // a difference between configurations that are equal (after normalisation) should be empty as well
+        if !differ && (!c.ab.is_empty() || !c.ba.is_empty()) { *probes.entry("nonempty_diff_between_equal_states".into()).or_insert(0) += 1; }
+        World::uninstall();
+        let mut seen = BTreeSet::new();
+        v.retain(|x| seen.insert((x.class.clone(), x.key.clone())));
+        Out { violations: v, hash: th.0, probes, nontrivial: differ && (c.ab.len() + c.ba.len()) > 0 }
+    })
+}
+
 impl Property for C06 {
     fn id(&self) -> &'static str { "C06" }
-    fn runs(&self, _tier: Tier) -> u64 { 0 }
-    fn gen_plan(&self, _seed: u64, _tier: Tier) -> Value { Value::Null }
-    fn run_plan(&self, _plan: &Value) -> RunReport { RunReport { harness_error: Some("not implemented".into()), ..Default::default() } }
-    fn descr(&self) -> Descr { Descr { level: "exploration", rule: "", assumptions: vec![], real: vec![], stub: vec![], not_covered: vec![] } }
+    fn runs(&self, tier: Tier) -> u64 { match tier { Tier::Quick => 60_000, Tier::Thorough => 1_500_000 } }
+    fn gen_plan(&self, seed: u64, tier: Tier) -> Value { generate(seed, tier) }
+    fn run_plan(&self, plan: &Value) -> RunReport {
+        let (a, b) = match (cfggen::ops_from_value(&plan["a"]), cfggen::ops_from_value(&plan["b"])) { (Ok(a), Ok(b)) => (a, b), (Err(e), _) | (_, Err(e)) => return RunReport { harness_error: Some(format!("bad plan: {e}")), ..Default::default() } };
+        let on_a = plan["b_base"].as_str() != Some("empty");
+        let summary = format!("A=[{}] B={}+[{}]", cfggen::summarize_ops(&a), if on_a { "A" } else { "empty" }, cfggen::summarize_ops(&b));
+        let o = run(a, b, on_a, plan["seed_a"].as_u64().unwrap_or(0), plan["seed_b"].as_u64().unwrap_or(1));
+        let mut rep = RunReport { seed: plan["seed"].as_u64().unwrap_or(0), family: plan["family"].as_str().unwrap_or("").into(), violations: o.violations, trace_hash: o.hash, summary, ..Default::default() };
+        rep.nontrivial = o.nontrivial;
+        rep.probes = o.probes;
+        rep
+    }
+    fn shrink(&self, plan: &Value) -> Vec<Value> {
+        let mut out: Vec<Value> = Vec::new();
+        for which in ["b", "a"] {
+            out.extend(cfggen::shrink_ops(&plan[which]).into_iter().map(|ops| { let mut p = plan.clone(); p[which] = ops; p }));
+        }
+        out
+    }
+    fn debug_plan(&self, plan: &Value) -> String {
+        let (Ok(a), Ok(b)) = (cfggen::ops_from_value(&plan["a"]), cfggen::ops_from_value(&plan["b"])) else { return "bad plan".into() };
+        let on_a = plan["b_base"].as_str() != Some("empty");
+        let (sa, sb, _) = build(&a, &b, on_a);
+        let mut s = format!("A = {sa:#?}\nB = {sb:#?}\n");
+        for (n, d) in [("diff(A,B)", sa.diff(&sb)), ("diff(B,A)", sb.diff(&sa))] {
+            s += &format!("{n}:\n");
+            for r in d { s += &format!("   {}\n", serde_json::to_string(&r).unwrap_or_default().chars().take(300).collect::<String>()); }
+        }
+        s
+    }
+    fn descr(&self) -> Descr {
+        Descr {
+            level: "exploration",
+            rule: "seeded pairs of reachable configurations (same history / unrelated histories / near pairs: one targeted mutation); diff computed under one hash seed, applied under another, both directions; a run is non-trivial when the two configurations differ and the difference has >=1 request; distinct = distinct (configuration contents, diff sizes, per-request results) hashes",
+            assumptions: vec!["release semantics (debug assertions off: the debug-only replay check inside diff never runs)", "`request_counts` is not configuration", "an empty bucket equals an absent one; order inside a bucket is not configuration"],
+            real: vec!["ConfigState::{dispatch, diff}", "diff_map merge join, Backend ordering", "certificate parsing / fingerprinting"],
+            stub: vec!["clock", "entropy (HashMap / HashSet seeds)"],
+            not_covered: vec!["worker tier: a real worker holding A receiving diff(A,B) from the master stub (netsim configuration scenario)"],
+        }
+    }
 }
